@@ -119,7 +119,8 @@ Definition case_ok (c : case) : Prop :=
   /\ (exists t, c_snapshot c = Some t /\ forall p, leaf t p = leaf (last_tree c) p)
   /\ snap (last_disk c) (keys (restrict (matches (c_sparse c)) (last_tree c)))
      = restrict (matches (c_sparse c)) (last_tree c)
-  /\ (forall q, lookup (c_scratch c) q = lookup (last_disk c) q).
+  /\ (forall q, lookup (c_scratch c) q = lookup (last_disk c) q)
+  /\ (forall b, In b (c_real_only c) -> b = true).
 
 Lemma step_ok_spec : forall u sp s, step_ok u sp s = true <-> step_okp u sp s.
 Proof.
@@ -131,10 +132,10 @@ Qed.
 Theorem okb_spec : forall c, C24Chk.okb c = true <-> case_ok c.
 Proof.
   intros c. unfold C24Chk.okb, case_ok.
-  rewrite !Bool.andb_true_iff, forallb_forall, tree_eqb_spec, fs_eqb_spec. split.
-  - intros [[[H1 H2] H3] H4]. split; [intros s Hs; apply step_ok_spec; auto|]. split; [|auto].
+  rewrite !Bool.andb_true_iff, !forallb_forall, tree_eqb_spec, fs_eqb_spec. split.
+  - intros [[[[H1 H2] H3] H4] H5]. split; [intros s Hs; apply step_ok_spec; auto|]. split; [|auto].
     destruct (c_snapshot c) as [t|]; cbn in H2; [|discriminate]. exists t. split; auto. now apply tree_same_spec.
-  - intros [H1 [[t [H2 H2']] [H3 H4]]]. repeat split; auto.
+  - intros [H1 [[t [H2 H2']] [H3 [H4 H5]]]]. repeat split; auto.
     + intros s Hs. apply step_ok_spec. auto.
     + rewrite H2. cbn. now apply tree_same_spec.
 Qed.
